@@ -200,7 +200,7 @@ Definition cflist_unmarshal (data : list N) : outcome cflist :=
   let ty := nth 15 data 0 in
   let body := firstn 15 data in
   if ty =? 1 then
-    Ok (mkCFList (CFPMasks (masks_loop (firstn 14 body) 8 [] [])) ty)
+    Ok (mkCFList (CFPMasks (masks_loop (firstn 12 body) 8 [] [])) ty)
   else
     Ok (mkCFList (CFPChannels (map (fun i => le_val (firstn 3 (skipn (3 * i) body)) * 100) [0;1;2;3;4]%nat)) ty).
 
